@@ -1,30 +1,68 @@
 (* C13: nominal values are only accepted at the allowed targets (ntarget <> NT_cross),
    explicit casts distinct <-> underlying type are accepted. *)
-From Capy Require Import Common.Util Common.Ty Model.TyRel Model.ExpectMatch Spec.TyLaws Proofs.TyRelBasics.
+From Capy Require Import Common.Util Common.Ty.
+From Capy Require Import Model.TyRel Model.ExpectMatch Spec.TyLaws Proofs.TyRelBasics.
+From Coq Require Import Sumbool.
 Local Arguments ty_eqb : simpl never.
 Local Arguments N.eqb : simpl never.
 Local Arguments N.leb : simpl never.
 Local Arguments N.ltb : simpl never.
-Local Arguments members_rel : simpl never.
+Local Arguments TyRel.members_rel : simpl never.
 Local Arguments params_eqb : simpl never.
-Local Arguments same_nominal : simpl never.
+Local Arguments TyLaws.same_nominal : simpl never.
+
+Section WithFixes.
+Variable fx : fixes.
+Notation fit := (TyRel.fit fx).
+Notation weak := (TyRel.weak fx).
+Notation feq := (TyRel.feq fx).
+Notation cast := (TyRel.cast fx).
+Notation has_semantics_of := (TyRel.has_semantics_of fx).
+Notation tmax := (TyRel.tmax fx).
+Notation accepts := (TyLaws.accepts fx).
+Notation known_weak_fit := (TyLaws.known_weak_fit fx).
+Notation known_max := (TyLaws.known_max fx).
+Notation max_accepts := (TyLaws.max_accepts fx).
+Notation ntarget := (TyLaws.ntarget fx).
+
+Lemma feq_struct_target : fx_feq_uid fx = true -> forall u ms s,
+  feq false (Struct u ms) s = true -> ntarget (Struct u ms) s <> NT_cross.
+Proof.
+  intros Fx u ms. induction s using ty_ind'; intros Hq; cbn [TyRel.feq] in Hq; cbn [TyLaws.ntarget];
+    try (rewrite Hq; cbn [orb]; discriminate).
+  - (* Distinct *)
+    destruct (ty_eqb _ _ || same_nominal _ _); [discriminate|].
+    specialize (IHs Hq). destruct (ntarget _ s); congruence.
+  - (* AnonStruct *)
+    destruct (ty_eqb _ _ || same_nominal _ _); discriminate.
+  - (* Struct *)
+    rewrite Fx in Hq. cbn [andb] in Hq.
+    destruct (N.eqb u u0) eqn:U; [|discriminate Hq].
+    unfold TyLaws.same_nominal. rewrite U, orb_true_r. discriminate.
+  - (* Variant *)
+    destruct (ty_eqb _ _ || same_nominal _ _); [discriminate|]. rewrite Fx.
+    specialize (IHs Hq). destruct (ntarget _ s); congruence.
+Qed.
 
 Lemma nominal_never_crosses_lem : forall e a,
   is_nominal a = true -> fit a e = true -> ntarget a e <> NT_cross.
 Proof.
   induction e using ty_ind'; intros a Hn Hf; destruct a; try discriminate Hn;
-    cbn [ntarget];
+    cbn [TyLaws.ntarget];
     (destruct (ty_eqb _ _ || same_nominal _ _) eqn:E; [discriminate|]);
     apply orb_false_iff in E as [E1 E2];
-    cbn [fit] in Hf; rewrite E1 in Hf;
+    cbn [TyRel.fit] in Hf; rewrite E1 in Hf;
     try discriminate;
-    cbn [feq] in Hf; try (rewrite E1 in Hf); try discriminate.
-  all: try (unfold same_nominal in E2; congruence).
+    cbn [TyRel.feq] in Hf; try (rewrite E1 in Hf); try discriminate.
+  all: try (unfold TyLaws.same_nominal in E2; congruence).
   all: try (rewrite Hf; discriminate).
   all: try (apply IHe; assumption).
   all: try (specialize (IHe _ Hn Hf); destruct (ntarget _ e); congruence).
   all: try discriminate.
   all: try (destruct (fit _ e1) eqn:F1; [apply IHe1; assumption | apply IHe2; assumption]).
+  (* Struct into Variant: with the C13-2 fix the payload must be the same struct or anonymous *)
+  destruct (Sumbool.sumbool_of_bool (fx_feq_uid fx)) as [Fx|Fx]; rewrite Fx; [|discriminate].
+  pose proof (feq_struct_target Fx _ _ _ Hf) as T. destruct (ntarget _ e); congruence.
 Qed.
 
 (* ---- explicit casts between a distinct type and its underlying type ------- *)
@@ -47,7 +85,7 @@ Qed.
 Lemma fit_into_distinct_of : forall a u s,
   is_distinct a = false -> fit a s = true -> fit a (Distinct u s) = true.
 Proof.
-  intros a u s Hd Hs. destruct a; try discriminate Hd; cbn [fit];
+  intros a u s Hd Hs. destruct a; try discriminate Hd; cbn [TyRel.fit];
     (destruct (ty_eqb _ _); [reflexivity|]); first [ reflexivity | exact Hs ].
 Qed.
 
@@ -67,9 +105,9 @@ Lemma distinct_not_into_underlying : forall u t,
 Proof.
   intros u t Hn Hp. destruct (fit (Distinct u t) t) eqn:F; [|reflexivity]. exfalso.
   apply (nominal_never_crosses_lem t (Distinct u t) eq_refl F).
-  destruct t; try discriminate Hn; try discriminate Hp; cbn [ntarget];
+  destruct t; try discriminate Hn; try discriminate Hp; cbn [TyLaws.ntarget];
     (destruct (ty_eqb _ _ || same_nominal _ _) eqn:E; [|reflexivity]);
-    (apply orb_true_iff in E as [E|E]; [|unfold same_nominal in E; discriminate E]);
+    (apply orb_true_iff in E as [E|E]; [|unfold TyLaws.same_nominal in E; discriminate E]);
     apply ty_eqb_eq in E; apply (f_equal size) in E; cbn [size] in E; lia.
 Qed.
 
@@ -80,8 +118,24 @@ Lemma variant_not_into_payload : forall eu nm u t d,
 Proof.
   intros eu nm u t d Hn Hp. destruct (fit (Variant eu nm u t d) t) eqn:F; [|reflexivity]. exfalso.
   apply (nominal_never_crosses_lem t (Variant eu nm u t d) eq_refl F).
-  destruct t; try discriminate Hn; try discriminate Hp; cbn [ntarget];
+  destruct t; try discriminate Hn; try discriminate Hp; cbn [TyLaws.ntarget];
     (destruct (ty_eqb _ _ || same_nominal _ _) eqn:E; [|reflexivity]);
-    (apply orb_true_iff in E as [E|E]; [|unfold same_nominal in E; discriminate E]);
+    (apply orb_true_iff in E as [E|E]; [|unfold TyLaws.same_nominal in E; discriminate E]);
     apply ty_eqb_eq in E; apply (f_equal size) in E; cbn [size] in E; lia.
 Qed.
+
+(* with the C13-2 fix in force the payload class is empty *)
+Lemma ntarget_no_payload_fixed : fx_feq_uid fx = true -> forall e a, ntarget a e <> NT_payload.
+Proof.
+  intros Fx. induction e using ty_ind'; intros a; cbn [TyLaws.ntarget];
+    (destruct (ty_eqb _ _ || same_nominal _ _); [discriminate|]); try discriminate;
+    try apply IHe.
+  - (* Distinct *) pose proof (IHe a) as I; destruct a; try discriminate; destruct (ntarget _ e); congruence.
+  - (* AnonStruct *) destruct a; discriminate.
+  - (* Enum *) destruct a; try discriminate. destruct (N.eqb _ _); discriminate.
+  - (* Variant *) pose proof (IHe a) as I; destruct a; try discriminate; rewrite ?Fx;
+      destruct (ntarget _ e); congruence.
+  - (* ErrorUnion *) destruct (fit a e1); [apply IHe1 | apply IHe2].
+Qed.
+
+End WithFixes.
